@@ -468,9 +468,17 @@ func (w *Proxy) fromGarbage(fr []byte) bool {
 		if len(fr) > 0 && bytes.Contains(g.Payload, fr) {
 			return true
 		}
-		// ... with the request id rewritten by MOSN (bolt: bytes 5..9, boltv2: 6..10, dubbo: 4..12)
-		for _, k := range []int{9, 10, 12} {
-			if len(fr) > k+8 && bytes.Contains(g.Payload, fr[k:]) {
+		// ... with the request id rewritten by MOSN (bolt: bytes 5..9, boltv2: 6..10, dubbo: 4..12,
+		// dubbo-thrift: the 8 bytes that end the header)
+		wins := [][2]int{{5, 4}, {6, 4}, {4, 8}}
+		if len(fr) > 12 && fr[4] == 0xda && fr[5] == 0xbc {
+			if a := 4 + int(fr[10])<<8 + int(fr[11]) - 8; a > 0 && a+8 < len(fr) {
+				wins = append(wins, [2]int{a, 8})
+			}
+		}
+		for _, wn := range wins {
+			a, n := wn[0], wn[1]
+			if len(fr) > a+n+8 && bytes.Contains(g.Payload, fr[:a]) && bytes.Contains(g.Payload, fr[a+n:]) {
 				return true
 			}
 		}
